@@ -200,7 +200,7 @@ func checkC15(p *core.Program, r *core.Report) {
 	}
 	r.Floor("reader-chain fallible calls", 5)
 	r.Floor("loader fallible calls", 2)
-	r.Floor("loader call sites", 7)
+	r.Floor("loader call sites", 1)
 }
 
 // nestedLits returns all function literals nested (at any depth) in u, each as its own unit, excluding cli actions
